@@ -155,6 +155,9 @@ func (s *schemaPropsValidator) validateAnyOf(data interface{}, mainResult, keepR
 	var bestFailures *Result
 
 	for i, anyOfSchema := range s.anyOfValidators {
+		if s.Options.recycleValidators {
+			s.anyOfValidators[i] = nil // the child redeems itself, even when it panics: never redeem it twice
+		}
 		result := anyOfSchema.Validate(data)
 		if s.Options.recycleValidators {
 			s.anyOfValidators[i] = nil
@@ -200,6 +203,9 @@ func (s *schemaPropsValidator) validateOneOf(data interface{}, mainResult, keepR
 	)
 
 	for i, oneOfSchema := range s.oneOfValidators {
+		if s.Options.recycleValidators {
+			s.oneOfValidators[i] = nil // the child redeems itself, even when it panics: never redeem it twice
+		}
 		result := oneOfSchema.Validate(data)
 		if s.Options.recycleValidators {
 			s.oneOfValidators[i] = nil
@@ -256,6 +262,9 @@ func (s *schemaPropsValidator) validateAllOf(data interface{}, mainResult, keepR
 	var validated int
 
 	for i, allOfSchema := range s.allOfValidators {
+		if s.Options.recycleValidators {
+			s.allOfValidators[i] = nil // the child redeems itself, even when it panics: never redeem it twice
+		}
 		result := allOfSchema.Validate(data)
 		if s.Options.recycleValidators {
 			s.allOfValidators[i] = nil
@@ -278,7 +287,11 @@ func (s *schemaPropsValidator) validateAllOf(data interface{}, mainResult, keepR
 }
 
 func (s *schemaPropsValidator) validateNot(data interface{}, mainResult *Result) {
-	result := s.notValidator.Validate(data)
+	notValidator := s.notValidator
+	if s.Options.recycleValidators {
+		s.notValidator = nil // the child redeems itself, even when it panics: never redeem it twice
+	}
+	result := notValidator.Validate(data)
 	if s.Options.recycleValidators {
 		s.notValidator = nil
 	}
